@@ -158,7 +158,11 @@ theorem attemptDeletion_spec (r : Nat) (s : State) :
   cases htd : (s.obj r).toDelete with
   | some l0 =>
     simp only [htd]
-    exact ⟨by simp [State.setObj], rfl, rfl, Or.inr ⟨l0, by simp⟩⟩
+    by_cases hc : (uniqueLabels (s.obj r).labels).contains l0 = true
+    · simp only [hc, if_true]
+      exact ⟨by simp [State.setObj], by first | rfl | trivial, by first | rfl | trivial, Or.inr ⟨l0, by first | rfl | trivial | simp [htd]⟩⟩
+    · simp only [hc, Bool.false_eq_true, if_false]
+      exact ⟨by first | rfl | trivial, by first | rfl | trivial, by first | rfl | trivial, Or.inl (by first | rfl | trivial)⟩
   | none =>
     simp only [htd]
     by_cases hu : (uniqueLabels (s.obj r).labels).isEmpty = true
